@@ -12,7 +12,12 @@ REALISTIC = [
      ["a = 1 ; print a ;", "{ a = b ; } print 3 ;", "x = y ;"]),
     ("nullable", 'S: A B C "end";\nA: "a" A | EMPTY;\nB: "b" | EMPTY;\nC: C "c" | EMPTY;\n', ["a a b c c end", "end", "b end", "a c end"]),
 ]
-JUNK = ["?", "#", "@@", "$ $", "!"]
+REALISTIC += [
+    # reduce/reduce fork: after "q a" GLR has two last-shifted heads in different states, so recovery runs per head and heads can die
+    ("fork", "S: X 'a' 'b' T | Y 'a' 'c' T;\nX: 'q';\nY: 'q';\nT: 'd' | T 'd';\n", ["q a b d d", "q a c d", "q a b d d d"]),
+    ("fork2", "S: A 'x' B | C 'x' D;\nA: 'k';\nC: 'k';\nB: 'b' B | 'b';\nD: 'd' D | 'd';\n", ["k x b b b", "k x d d", "k x b"]),
+]
+JUNK = ["?", "#", "@@", "$ $", "!", "&"]
 
 
 def corruptions(sentence, rng, alphabet, n):
@@ -20,7 +25,7 @@ def corruptions(sentence, rng, alphabet, n):
     out = {sentence}
     for _ in range(n * 3):
         m = list(toks)
-        op = rng.choice(["ins", "del", "sub", "junk", "junk", "dup", "trunc"])
+        op = rng.choice(["ins", "del", "sub", "junk", "junk", "dup", "trunc", "junk2", "junk2"])
         k = rng.randrange(len(m)) if m else 0
         if op == "ins":
             m.insert(k, rng.choice(alphabet))
@@ -29,6 +34,10 @@ def corruptions(sentence, rng, alphabet, n):
         elif op == "sub" and m:
             m[k] = rng.choice(alphabet)
         elif op == "junk":
+            m.insert(k, rng.choice(JUNK))
+        elif op == "junk2" and len(m) >= 2:
+            k2 = rng.randrange(k, len(m))
+            m.insert(k2 + 1, rng.choice(JUNK))
             m.insert(k, rng.choice(JUNK))
         elif op == "dup" and m:
             m.insert(k, m[k])
